@@ -20,6 +20,14 @@ def main():
     prop, what = sys.argv[1], sys.argv[2]
     logging.disable(logging.CRITICAL)
     mod = importlib.import_module("props." + prop)
+    # warm up: importing formulae (pandas, scipy) can take many seconds on a cold machine and must
+    # not be charged to the first case
+    try:
+        import formulae  # noqa: F401
+        import formulae.matrices  # noqa: F401
+    except Exception:
+        pass
+    scale = float(sys.argv[3]) if len(sys.argv) > 3 else 1.0
     signal.signal(signal.SIGALRM, _alarm)
     real_stdout = sys.stdout
     for line in sys.stdin:
@@ -30,7 +38,7 @@ def main():
         out = {"obs": None, "oracle": None}
         sys.stdout = sys.stderr  # the implementation prints on some error paths
         try:
-            signal.alarm(int(getattr(mod, "CASE_TIMEOUT", 20)))
+            signal.alarm(int(getattr(mod, "CASE_TIMEOUT", 20) * scale))
             with warnings.catch_warnings():
                 warnings.simplefilter("ignore")
                 if what in ("obs", "both"):
